@@ -366,6 +366,7 @@ def rayleigh_bounded_instance():
         res['ban'] = bf.blind_analytic_normalization(res['gev'], noi)
         res['ban_scaled'] = bf.blind_analytic_normalization(res['gev'] * 7.3, noi)
         # through the wrapper, with the solver option forwarded: the core vector, its normalised version, other beamformers
+        res['w_pca'] = bw.get_bf_vector('pca', tgt, noi, scaling=inp['scaling']) if inp['scaling'] is not None else bw.get_bf_vector('pca', tgt, noi)
         res['w_gev'] = bw.get_bf_vector('gev', tgt, noi, use_eig=inp['use_eig'])
         res['w_gev_ban'] = bw.get_bf_vector('gev+ban', tgt, noi, use_eig=inp['use_eig'])
         res['w_r1_gev_ban'] = bw.get_bf_vector('rank1_gev+gev+ban', tgt, noi, use_eig=inp['use_eig'], atf_kwargs={'use_eig': inp['use_eig']})
@@ -401,6 +402,7 @@ def rayleigh_bounded_instance():
         fac = np.sqrt(q(out['gev'], noi @ noi)) / q(out['gev'], noi)
         yield 'ban-is-positive-real-factor', bool(np.allclose(out['ban'], out['gev'] * fac[..., None], rtol=1e-8))
         yield 'ban-independent-of-input-magnitude', bool(np.allclose(out['ban'], out['ban_scaled'], rtol=1e-8))
+        yield 'wrapper-pca-carries-the-scaling-option[%s]' % inp['scaling'], bool(np.allclose(np.linalg.norm(out['w_pca'], axis=-1), exp, rtol=1e-8))
         wg = out['w_gev']
         wfac = np.sqrt(q(wg, noi @ noi)) / q(wg, noi)
         yield 'wrapper-gev+ban-is-the-ban-factor-times-the-wrapper-gev-vector[use_eig=%s]' % inp['use_eig'], bool(np.allclose(out['w_gev_ban'], wg * wfac[..., None], rtol=1e-8))
